@@ -271,6 +271,8 @@ def pointer_high_octet(P, D, s, prop=None):
             continue
         while v[0] == "cast":
             v = norm(v[3])
+        if v[0] == "index" and v[2] == "[0]" and norm(v[1])[0] == "call" and str(norm(v[1])[1]).endswith("u16>::to_be_bytes"):
+            v = ("bin", "Shr", norm(v[1])[2][0], ("const", 8))          # the high octet of a 16-bit value
         if not (v[0] == "bin" and v[1] in ("Shr", "ShrUnchecked") and is_const(norm(v[3]), 8)):
             continue
         x = norm(v[2])
